@@ -20,7 +20,7 @@ json.dump(m, open(p, "w"), indent=1)
 PY
   exit 2
 fi
-OUT=$(cd /verif && VERIF_BUILD_TAG=_re$$ VERIF_REPO=$WT timeout 3000 ./check.py $PID --tier quick 2>&1 | grep -E "VIOLATION|KNOWN-FINDING|why:|no longer shown|INTERNAL| (OK|FAIL) tier" | cut -c1-400 | head -8)
+OUT=$(cd /verif && VERIF_BUILD_TAG=_re$$ VERIF_EVIDENCE_DIR=/verif/build/evidence_scratch VERIF_REPO=$WT timeout 3000 ./check.py $PID --tier quick 2>&1 | grep -E "VIOLATION|KNOWN-FINDING|why:|no longer shown|INTERNAL| (OK|FAIL) tier" | cut -c1-400 | head -8)
 git -C /repo worktree remove --force $WT
 rm -rf /verif/build/${PID}_re$$
 python3 - "$SID" "$PID" "$OUT" <<'PY'
